@@ -1258,13 +1258,48 @@ def _leg_check(ctx):
                            "# correspondence obligation broken: the chunk files / remapped offsets of the real upgrade differ from chunks/remap of coq/theories/Chunk.v on %d of %d cases;\n"
                            "# the contents oracle found no failing legacy store among %d\n%s\n" % (len(mism), len(terms), len(lines), line))
         viol.append(("correspondence: upgrade arithmetic differs from the model on %d of %d cases" % (len(mism), len(terms)), rp, False))
-    return viol, {"evaluations": len(lines), "distinct_nontrivial": len(nontriv), "traces_validated_against_impl": len(terms) - len(mism),
+    # "if the conversion is interrupted at any step": process crashes at every file-system step of a conversion
+    from . import crash
+    LD = os.path.join(C.BIN, "legdrive")
+    cpoints, ctorn, ccalls, cstores = 0, 0, 0, 0
+    if not ctx.get("replay") or ctx["replay"].endswith(".legcrash"):
+        cases = []
+        cdir2 = os.path.join(C.VERIF, "corpus", prop)
+        if os.path.isdir(cdir2):
+            for fn in sorted(os.listdir(cdir2)):
+                if fn.endswith(".legcrash"):
+                    cases += [l.split() for l in open(os.path.join(cdir2, fn)) if l.strip() and not l.startswith("#")]
+        if ctx.get("replay"):
+            cases = [l.split() for l in open(ctx["replay"]) if l.strip() and not l.startswith("#")]
+        else:
+            for _ in range(1 if tier == "quick" else 25):
+                cases.append([str(rng.randint(1, 10**6)), str(rng.choice((8, 12))), str(rng.choice((60, 100, 300))), str(rng.choice((80, 100, 120)))])
+        for seed_s, bits_s, imax_s, pmax_s in cases:
+            tdir = os.path.join(wd, "legcrash-%s" % seed_s); shutil.rmtree(tdir, ignore_errors=True); os.makedirs(tdir)
+            tpl, want = os.path.join(tdir, "legacy"), os.path.join(tdir, "want.json")
+            os.makedirs(tpl)
+            C.sh([LD, "prep", seed_s, bits_s, tpl, want], env=dict(os.environ, GOLOG_LOG_LEVEL="fatal"))
+            np_, nt_, fails, nc_ = crash.enumerate_generic(tpl, lambda d: [LD, "upgrade", d, bits_s, imax_s, pmax_s],
+                                                           lambda d: [LD, "verify", d, bits_s, imax_s, pmax_s, want], os.path.join(tdir, "enum"), rng,
+                                                           max_points=(40 if tier == "quick" else None), torn=(tier != "quick"))
+            cpoints += np_; ctorn += nt_; ccalls += nc_; cstores += 1
+            for f in fails[:2]:
+                if len(viol) < 3:
+                    rp = C.save_replay(prop, "legcrash-%s.legcrash" % seed_s,
+                                       "# C10 fails on the implementation: a conversion interrupted by a process crash: %s\n# crash point: %s\n# directory image: %s\n"
+                                       "# (line = seed, index bits, new index file size, new primary file size)   replay: cd /verif && ./check C10 --replay <this file>\n%s %s %s %s\n"
+                                       % (f["bad"], f["what"], f["image"], seed_s, bits_s, imax_s, pmax_s))
+                    viol.append(("crash enumeration of a conversion: %s [%s]" % (f["bad"], f["what"]), rp, True))
+    return viol, {"evaluations": len(lines) + cpoints + ctorn, "distinct_nontrivial": len(nontriv), "traces_validated_against_impl": len(terms) - len(mism),
+                  "conversions_enumerated_for_crashes": cstores, "crash_points": cpoints, "torn_write_variants": ctorn, "file_system_calls_traced": ccalls,
                   "correspondence_mismatches": len(mism), "oracle_failures": nbad, "cases_with_dangling_index_entries": sum(1 for _, rs in outs for r in rs if r.get("dangling_keys")),
                   "samples": [{"case": lines[-1]}], "coq_replay_s": round(coq_s, 1),
                   "case_rule": "a store written by the current code into single huge files (3-12 keys sharing bucket bits and prefixes, 5-45 puts/overwrites/removals/flushes) is re-packaged as a "
                                "version-2 single-file index, a bare single-file primary and a freelist with its pending entries; it is opened with new limits (index 1..2^20, primary 1..2^20 incl. limits that "
                                "records hit exactly) uninterrupted and interrupted after 0,1,2,3,5,8,13 context polls then resumed; every key is compared with the expected map after the upgrade and after a reopen; "
-                               "fsck on the upgraded files; chunk sizes and remapped offsets compared with the model; non-trivial = >= 3 chunk files and >= 2 live keys"}
+                               "fsck on the upgraded files; chunk sizes and remapped offsets compared with the model; non-trivial = >= 3 chunk files and >= 2 live keys; "
+                               "process crashes: the conversion of a legacy store (the corpus store on which F26 was found plus generated ones) runs in a child under strace, SIGKILL on entering "
+                               "every file-system call behind a mutating one (quick: 40 points; thorough: all, with torn writes), each image is opened again by the real code and every key compared, twice"}
 
 CHECKS["C10"] = Spec(
     prop_file="C10.v",
